@@ -198,7 +198,13 @@ fn layout_decls(rng: &mut Rng, p: &mut Program, start_num: u32) {
         let user = format!("W{num}");
         let idx = p.decls.len() - 1;
         let r = if p.cxx { base.clone() } else { format!("struct {base}") };
-        let text = format!("struct {user} {{ char pre; {r} m0; {r} *m1; {r} m2[2]; }};");
+        // (a leading `char` in front of a member aligned above 8 runs into known finding
+        // `blob_padding_overaligned`; keep that shape rare so that the compile oracle keeps its coverage)
+        let text = if rng.chance(1, 6) {
+            format!("struct {user} {{ char pre; {r} m0; {r} *m1; {r} m2[2]; }};")
+        } else {
+            format!("struct {user} {{ {r} m0; char pre; {r} *m1; {r} m2[2]; }};")
+        };
         let mut deps = BTreeSet::new();
         deps.insert(idx);
         p.decls.push(cgen::Decl { base: user.clone(), kind: DKind::Struct, ns: None, file: 0, deps, text, variants: vec![], c_ref: format!("struct {user}") });
@@ -218,6 +224,14 @@ fn build_case(rng: &mut Rng) -> Case {
     let mut annotated: BTreeMap<usize, &str> = BTreeMap::new();
     let mode = rng.below(3); // 0 = blocklist, 1 = opaque, 2 = both
     let cand: Vec<usize> = (0..p.decls.len()).collect();
+    if mode != 1 && p.inc_count > 0 && rng.chance(1, 5) {
+        block.files.push(".*inc\\.h".to_owned());
+        for (j, dj) in p.decls.iter().enumerate() {
+            if dj.file == 1 {
+                blocked.insert(j);
+            }
+        }
+    }
     if mode != 1 {
         for _ in 0..rng.range(1, 3) {
             let i = *rng.pick(&cand);
@@ -256,7 +270,7 @@ fn build_case(rng: &mut Rng) -> Case {
                 opaque_pats.push(format!("{nsn}::.*"));
                 // every struct-like declaration of that namespace becomes opaque
                 for (j, dj) in p.decls.iter().enumerate() {
-                    if dj.ns == d.ns && matches!(dj.kind, DKind::Struct | DKind::Union | DKind::Class) && !blocked.contains(&j) {
+                    if dj.ns == d.ns && matches!(dj.kind, DKind::Struct | DKind::Union | DKind::Class | DKind::Template) && !blocked.contains(&j) {
                         opaque.insert(j);
                     }
                 }
@@ -449,7 +463,7 @@ fn strip_derives(text: &str) -> String {
         }
     }
     out.push_str(rest);
-    out
+    out.split_whitespace().collect::<Vec<_>>().join(" ")
 }
 
 /// struct field list `name : type` from a leaf's token text
@@ -534,20 +548,34 @@ fn oracles(
     // ---- others_unchanged: every other non-impl item occurs in the un-blocklisted bindings, modulo derives
     st.others_checked += 1;
     let full_norm: BTreeSet<String> = full_leaves.iter().map(|l| strip_derives(&l.text)).collect();
-    let touched: BTreeSet<usize> = c.blocked.union(&c.opaque).copied().collect();
+    let mut touched: BTreeSet<usize> = c.blocked.union(&c.opaque).copied().collect();
+    // items the implementation itself regards as blocklisted / opaque (a typedef of an annotated type
+    // inherits the annotation; instantiations and aliases follow their definition)
+    for it in &run.dump.items {
+        if (it.blocklisted || it.opaque) && it.kind != "module" {
+            if let Some(d) = it.name.split("::").find_map(|comp| p.resolve_ident(&map, comp)) {
+                if touched.insert(d) {
+                    st.bump("touched-by-inheritance");
+                }
+            }
+        }
+    }
+    // declarations that (transitively) use a touched one may legitimately change their derives, their
+    // union representation and their manual impls; their layout is checked by the compiler below
+    let depends_on_touched = |d: usize| -> bool { p.closure(&[d].into_iter().collect()).iter().any(|x| touched.contains(x)) };
     for l in &leaves {
         if l.kind == "impl" {
             continue;
         }
         let owner = l.name.as_ref().and_then(|n| p.resolve_ident(&map, n));
-        if owner.is_some_and(|o| touched.contains(&o)) {
+        if owner.is_some_and(|o| depends_on_touched(o)) {
             continue;
         }
-        // layout-test consts of opaque types and helper types mention them by name
-        if l.name.is_none() && touched.iter().any(|&t| inventory::idents_in(&l.text).iter().any(|id| p.resolve_ident(&map, id) == Some(t))) {
+        // layout-test consts mention their type by name
+        if l.name.is_none() && inventory::idents_in(&l.text).iter().any(|id| p.resolve_ident(&map, id).is_some_and(|d| depends_on_touched(d))) {
             continue;
         }
-        if l.text.contains("__BindgenOpaqueArray") {
+        if l.text.contains("__BindgenOpaqueArray") || l.text.contains("__BindgenUnionField") {
             continue;
         }
         st.others_items += 1;
@@ -559,6 +587,7 @@ fn oracles(
     }
     // an un-touched declaration that the full run defines must still be defined (unless it only
     // disappears with its blocklisted namespace: known finding, reported by C09)
+    let mut ns_finding_hit = false;
     let defined_now: BTreeSet<usize> = leaves.iter().filter_map(|l| l.name.as_ref().and_then(|n| p.resolve_ident(&map, n))).collect();
     for l in &full_leaves {
         if l.kind == "impl" {
@@ -578,6 +607,7 @@ fn oracles(
                     continue;
                 }
                 if ns_blocked {
+                    ns_finding_hit = true;
                     st.known("blocklist_file_hides_namespace", format!("{} disappears although it is neither blocklisted nor in a blocklisted file; flags {:?}", p.path(o), c.flags));
                     continue;
                 }
@@ -635,20 +665,29 @@ fn oracles(
     }
 
     // ---- still named + container layouts + no derive through blocklisted: compile with user definitions
-    if !c.namespaces_on && !c.blocked.is_empty() {
+    // (when the known finding hides un-blocklisted declarations, their uses name types the user was never
+    // told to define: reported above, nothing to compile)
+    if !c.namespaces_on && !c.blocked.is_empty() && !ns_finding_hit {
         let mut raw = String::new();
         let mut ok = true;
-        for &i in &c.blocked {
-            let d = &p.decls[i];
-            if !d.kind.is_type() {
+        let mut done: BTreeSet<String> = BTreeSet::new();
+        // the user supplies a definition of the C size/alignment (no derives) for every named type the
+        // implementation regards as blocklisted (a typedef of a `hide`-annotated type inherits the
+        // annotation, so it is the user's to define as well)
+        for it in &run.dump.items {
+            if it.kind != "type" || !it.blocklisted {
                 continue;
             }
-            let name = rust_name(i);
-            // C layout of the blocklisted type, from the IR of the un-blocklisted run
-            let lay = full.dump.items.iter().find(|it| it.kind == "type" && it.name == p.path(i) && it.layout.is_some()).and_then(|it| it.layout);
-            match (d.kind, lay) {
-                (DKind::Enum, _) => raw.push_str(&format!("pub type {name} = ::std::os::raw::c_uint;\n")),
-                (_, Some((s, a))) if a.is_power_of_two() => raw.push_str(&format!("#[repr(C, align({a}))] pub struct {name} {{ _b: [u8; {s}] }}\n")),
+            let k = it.type_kind.as_deref().unwrap_or("");
+            if !matches!(k, "Comp" | "Enum" | "Alias") || it.type_name.is_none() || it.name.contains('<') {
+                continue;
+            }
+            let name = it.name.replace("::", "_");
+            if !done.insert(name.clone()) {
+                continue;
+            }
+            match it.layout {
+                Some((s, a)) if a.is_power_of_two() => raw.push_str(&format!("#[repr(C, align({a}))] pub struct {name} {{ _b: [u8; {s}] }}\n")),
                 _ => ok = false,
             }
         }
@@ -666,6 +705,32 @@ fn compile_batch(scratch: &Scratch, tag: &str, srcs: &[&str]) -> Result<(), Stri
     drive::rustc_check_lib(scratch, tag, &s, "2021")
 }
 
+/// first padding field `__bindgen_padding_N : __BindgenOpaqueArray<A> < [u8 ; K usize] >` with A > 4 not dividing K
+fn overaligned_padding(src: &str) -> Option<(u64, u64)> {
+    let t = nospace(src);
+    let mut rest = t.as_str();
+    while let Some(i) = rest.find("__bindgen_padding_") {
+        rest = &rest[i + 1..];
+        let Some(j) = rest.find("__BindgenOpaqueArray") else { break };
+        if j > 40 {
+            continue;
+        }
+        let tail = &rest[j + "__BindgenOpaqueArray".len()..];
+        let n = tail.find(|c: char| !c.is_ascii_digit()).unwrap_or(0);
+        let Ok(a) = tail[..n].parse::<u64>() else { continue };
+        let tail = &tail[n..];
+        if let Some(body) = tail.strip_prefix("<[u8;") {
+            let m = body.find(|c: char| !c.is_ascii_digit()).unwrap_or(0);
+            if let Ok(k) = body[..m].parse::<u64>() {
+                if a > 4 && k % a != 0 {
+                    return Some((a, k));
+                }
+            }
+        }
+    }
+    None
+}
+
 fn run_rustc(queue: &[(String, String, String)], st: &mut Stats, fails: &mut Vec<Failure>) {
     let scratch = Scratch::new("c10rustc");
     for (bi, chunk) in queue.chunks(40).enumerate() {
@@ -678,7 +743,20 @@ fn run_rustc(queue: &[(String, String, String)], st: &mut Stats, fails: &mut Vec
             match compile_batch(&scratch, &format!("b{bi}_{j}"), &[b]) {
                 Ok(()) => st.rustc_block_compiled += 1,
                 Err(e) => {
-                    if compile_batch(&scratch, &format!("b{bi}_{j}f"), &[full]).is_err() {
+                    if let Err(fe) = compile_batch(&scratch, &format!("b{bi}_{j}f"), &[full]) {
+                        // known finding `blob_padding_overaligned`: a padding field `__BindgenOpaqueArray<A><[u8; K]>`
+                        // with A not dividing K (region blobOverAligned), and the compiler reports a layout assertion
+                        if let Some((a, k)) = overaligned_padding(full) {
+                            let ans = util::model(&[format!("blk blob {k} {a} 0 0")]);
+                            let predicted = ans.first().and_then(|l| l.split(' ').nth(1).and_then(|x| x.parse::<u64>().ok()));
+                            if fe.contains("E0080") && predicted.is_some_and(|p| p != k) {
+                                st.known("blob_padding_overaligned", format!("padding field of {k} bytes emitted as __BindgenOpaqueArray{a}<[u8; {k}]> (size {} by the model and by rustc): the un-blocklisted bindings fail their own layout assertion; input {}", predicted.unwrap_or(0), &input[..input.len().min(1500)]));
+                                continue;
+                            }
+                        }
+                        if st.rustc_baseline_broken < 2 {
+                            eprintln!("baseline does not compile: {}", fe.lines().filter(|l| l.starts_with("error")).take(3).collect::<Vec<_>>().join(" | "));
+                        }
                         st.rustc_baseline_broken += 1;
                     } else {
                         let first: String = e.lines().filter(|l| l.starts_with("error")).take(3).collect::<Vec<_>>().join(" | ");
@@ -825,7 +903,7 @@ fn main() {
     let mut rng = Rng::new(args.seed);
     let mut st = Stats::default();
     let mut fails: Vec<Failure> = vec![];
-    let (n_graphs, n_sel) = if thorough { (2500, 6) } else { (200, 3) };
+    let (n_graphs, n_sel) = if thorough { (1000, 6) } else { (150, 3) };
 
     let mut r2 = rng.fork();
     forsize(&mut r2, thorough, &mut st, &mut fails);
@@ -909,7 +987,7 @@ fn main() {
     check_blobs(&blob_checks, &mut st, &mut fails);
     run_rustc(&rustc_queue, &mut st, &mut fails);
     // probes are the expensive part: a bounded sample
-    let max_probes = if thorough { 400 } else { 40 };
+    let max_probes = if thorough { 300 } else { 40 };
     let step = (probe_queue.len() / max_probes).max(1);
     let sample: Vec<_> = probe_queue.iter().step_by(step).cloned().collect();
     run_probes(&sample, &inc_of, &mut st, &mut fails);
